@@ -777,23 +777,36 @@ def loopback_tier(ctx):
                 state["beh"] = beh
                 params = StreamableHTTPParameters(url=f"http://127.0.0.1:{port}/mcp", timeout=5.0)
                 got = []
-                async with http_client(params) as (read, write):
-                    msg = create_request("tools/call", {"name": "t"}, id="lb-1")
-                    await write.send(msg)
-                    with anyio.move_on_after(3.0):
-                        while True:
-                            with anyio.move_on_after(0.4) as sc:
-                                got.append(await read.receive())
-                            if sc.cancelled_caught:
-                                break
+                msg = create_request("tools/call", {"name": "t"}, id="lb-1")
+                # (real sockets, real time: a generous wall-clock allowance per behaviour - one that is exceeded, on a
+                # loaded machine, says nothing about the property and is counted, not judged)
+                with anyio.move_on_after(30.0) as whole:
+                    async with http_client(params) as (read, write):
+                        await write.send(msg)
+                        with anyio.move_on_after(3.0):
+                            while True:
+                                with anyio.move_on_after(0.4) as sc:
+                                    got.append(await read.receive())
+                                if sc.cancelled_caught:
+                                    break
+                if whole.cancelled_caught:
+                    state["skipped"] = state.get("skipped", 0) + 1
+                    continue
                 results.append((beh, msg.model_dump(exclude_none=True), got))
         finally:
             server.close()
-            await server.wait_closed()
+            with anyio.move_on_after(2.0):
+                # (since Python 3.12 this also waits for every connection handler; one still parked in a read on a
+                # half-open connection must not keep the check from finishing)
+                await server.wait_closed()
+        ctx.count("loopback_behaviours_skipped_for_time", state.get("skipped", 0))
         return results
 
     try:
-        results = asyncio.run(main())
+        results = asyncio.run(asyncio.wait_for(main(), timeout=600.0))
+    except (TimeoutError, asyncio.TimeoutError):
+        ctx.count("loopback_tier_abandoned_for_time")      # (secondary tier on real sockets; the virtual-time tiers decide)
+        return
     except Exception as e:  # noqa
         ctx.inconclusive_because(f"loopback tier failed: {e!r}")
         return
